@@ -24,6 +24,36 @@ def parity(p):
     return s
 
 
+def interp_alias_eval(db, f):
+    """Evaluate the extracted body of ElementWithPermFreq::operator() for every permutation of {0,1,2,3} and both signs, with
+    symbolic frequencies and the wrapped element as an uninterpreted function.  Returns a list of mismatches
+    (perm, sign, got, expected); raises AnalysisBroken when the body leaves the interpreted subset."""
+    import itertools
+    import sympy as sp
+    from pv.summ import Interp, Obj, Thrown
+    n1, n2, n3 = sp.symbols("n1 n2 n3", integer=True)
+    E = sp.Function("element")
+    M = [n1, n2, n3, n1 + n2 - n3]
+    prims = {}
+    for j, n in f.walk(f.body):
+        if n["k"] == "call" and n.get("ck") == "op" and n.get("op") == "()" and len(n["args"]) == 4:
+            prims[strip_targs(n["cname"])] = lambda fr, i, obj, args: E(*[sp.sympify(a) for a in args[1:]]) if isinstance(args[0], Obj) and args[0].cls == "element" else fr.bad(i, "call of something else than the wrapped element")
+    bad = []
+    for perm in itertools.permutations(range(4)):
+        for sgn in (1, -1):
+            this = Obj("EWPF", **{"Pomerol::ElementWithPermFreq::pElement": Obj("element"),
+                                  "Pomerol::ElementWithPermFreq::FrequenciesPermutation": Obj("Permutation4", **{"Pomerol::Permutation4::perm": list(perm), "Pomerol::Permutation4::sign": sgn})})
+            ip = Interp(db, prims)
+            try:
+                got = ip.call_fn(f, [n1, n2, n3], this=this)
+            except Thrown as t:
+                raise AnalysisBroken("%s: interpreted summary throws %s at %s" % (f.qn, t.tt, t.where))
+            want = sgn * E(M[perm[0]], M[perm[1]], M[perm[2]])
+            if got is None or sp.simplify(sp.sympify(got) - want) != 0:
+                bad.append((perm, sgn, got, want))
+    return bad
+
+
 def interp_set(db, f, p4):
     """interpret the skeleton of IndexContainer4::set on an empty container for four distinct indices"""
     from pv.summ import Interp, Obj, FObj, Thrown
@@ -135,7 +165,7 @@ def check_default_quadruples(r7, db, cfgname):
 
 def body(chk, db, cfgname):
     # ------------------------------------------------------------------ tables
-    r1 = chk.rule("C13-R1", "permutation tables are complete with correct parity; every alias key permutation equals its frequency permutation", "F7 tables", 28)
+    r1 = chk.rule("C13-R1", "permutation tables are complete with correct parity; every alias key permutation equals its frequency permutation", "F7 tables", 25)
     p4 = db.global_const("Pomerol::permutations4")
     gf = db.global_fn("Pomerol::permutations4")
     seen = set()
@@ -411,15 +441,30 @@ def body(chk, db, cfgname):
                             ngood += 1
                         else:
                             why = "element is not evaluated at M[perm[0]], M[perm[1]], M[perm[2]] with M = {n1, n2, n3, n1+n2-n3}"
-        if shortcut is not None:
+        # the verdict: the extracted body evaluated for all 24 permutations x 2 signs (the function only indexes a 4-element
+        # table with perm[] and multiplies by sign, so this table is exhaustive); the shape analysis above supplies the wording
+        try:
+            mism = interp_alias_eval(db, f)
+        except AnalysisBroken as e_:
+            mism = None
+            ierr = str(e_)
+        if mism is not None and not mism:
+            r2.ok(site, f.loc(), "(*pElement)(M[perm[0]], M[perm[1]], M[perm[2]]) * sign with M = {n1,n2,n3,n1+n2-n3}, for all 24 permutations and both signs" + ("" if good and ngood == len(rets) else " (interpreted summary)"), cfgname)
+        elif mism:
+            pm_, sg_, got_, want_ = mism[0]
+            if shortcut is not None:
+                r2.bad(site, f.loc(shortcut[0]), "on some path the element is returned at the unpermuted frequencies (n1,n2,n3) without the permutation (%s): that is right for the identity permutation only -- e.g. the double exchange (2,1,4,3) "
+                       "is even as well, so a test of the sign does not single out the identity; first of %d failing cases: perm %s sign %+d gives %s" % (shortcut[1], len(mism), [x + 1 for x in pm_], sg_, got_), cfgname)
+            else:
+                r2.bad(site, f.loc(), "%s: for the permutation %s with sign %+d the alias evaluates to %s instead of %s (%d of 48 cases differ)" % (
+                    why if why != "no return" else "the alias does not evaluate its element at the permuted frequencies times the sign", [x + 1 for x in pm_], sg_, got_, want_, len(mism)), cfgname)
+        elif shortcut is not None:
             r2.bad(site, f.loc(shortcut[0]), "on some path the element is returned at the unpermuted frequencies (n1,n2,n3) without the permutation (%s): that is right for the identity permutation only — e.g. the double exchange (2,1,4,3) "
                    "is even as well, so a test of the sign does not single out the identity" % shortcut[1], cfgname)
         elif good and ngood == len(rets):
             r2.ok(site, f.loc(), "(*pElement)(M[perm[0]], M[perm[1]], M[perm[2]]) * sign with M = {n1,n2,n3,n1+n2-n3}", cfgname)
-        elif good:
-            r2.unknown(site, f.loc(), "one return has the expected form, another one is not analysed", cfgname)
         else:
-            r2.bad(site, f.loc(), why, cfgname)
+            r2.unknown(site, f.loc(), "the evaluation of the alias is not in a recognised form and its body could not be interpreted (%s)" % ierr, cfgname)
 
     # ------------------------------------------------------------------ R5 bulk coverage
     r5 = chk.rule("C13-R5", "bulk calls visit every element of the map they iterate (ElementsMap / NonTrivialElements)", "F1 full-range loops", 4)
